@@ -1461,6 +1461,16 @@ func (e *evalCtx) eval1(t *Term) evalVal {
 		if t.sort == SDy {
 			v = evalVal{bi: big.NewInt(0)}
 		}
+		if (t.name == absMulName || t.name == absDivName) && len(args) == 2 {
+			// abstracted IEEE product / quotient without a model value: the true IEEE result is one
+			// admissible value (it satisfies every axiom asserted about the abstraction)
+			x, y := math.Float64frombits(args[0].u), math.Float64frombits(args[1].u)
+			if t.name == absMulName {
+				v = evalVal{u: canonNaN(x * y)}
+			} else {
+				v = evalVal{u: canonNaN(x / y)}
+			}
+		}
 		if mv, ok := e.m[ufAuxName(t)]; ok {
 			v = evalVal{u: maskW(mv, widthOrBool(t.sort))}
 			if t.sort == SF64 {
